@@ -9,6 +9,7 @@ trap 'rm -rf "$ROOT"' EXIT
 one() {
   d=$1; ROOT=$2
   id=$(basename $d); prop=${id%%-*}
+  [ -f $d/OBSOLETE ] && { echo "$id obsolete rc=1 "; return 2>/dev/null || continue; }
   w=$ROOT/$id; mkdir -p $w
   cp -al /repo/edb $w/edb
   [ -d /repo/tests ] && mkdir -p $w/tests
